@@ -28,6 +28,8 @@ type Op struct {
 	Kind      string     `json:"op"`
 	Sub       string     `json:"sub,omitempty"`
 	Variant   string     `json:"variant,omitempty"`
+	CrashDel  []int64    `json:"crash_delete,omitempty"` // reopen: the directory is replaced by its image taken inside a Delete of these offsets (after the rewrite, before the swap)
+	StopAfter int        `json:"stop_after,omitempty"` // multi variants: the backoff fails on its n-th call (0 = never)
 	Msgs      []PubMsg   `json:"msgs,omitempty"`
 	Offsets   []int64    `json:"offsets,omitempty"`
 	N         int64      `json:"n,omitempty"`
@@ -462,6 +464,9 @@ func (g *GenState) genDelete(m *ref.Model, lay Layout) Op {
 	case 2:
 		op.Variant = "multioffsets"
 	}
+	if op.Variant != "" && r.Chance(0.2) {
+		op.StopAfter = 1 + r.Intn(3)
+	}
 	return op
 }
 
@@ -469,6 +474,9 @@ func (g *GenState) genTrim(m *ref.Model, statSize int64) Op {
 	r := g.r
 	op := Op{Kind: "trim", Sub: pick(r, g.prof.TrimSubs)}
 	op.Variant = pick(r, []string{"", "multi", "multi", "multioffsets", "find"})
+	if (op.Variant == "multi" || op.Variant == "multioffsets") && r.Chance(0.2) {
+		op.StopAfter = 1 + r.Intn(3)
+	}
 	switch op.Sub {
 	case "offset":
 		switch r.Intn(8) {
@@ -521,6 +529,9 @@ func (g *GenState) genCompact(m *ref.Model) Op {
 	r := g.r
 	op := Op{Kind: "compact", Sub: pick(r, g.prof.CompactSubs)}
 	op.Variant = pick(r, []string{"", "multi", "multi", "multioffsets", "find"})
+	if (op.Variant == "multi" || op.Variant == "multioffsets") && r.Chance(0.2) {
+		op.StopAfter = 1 + r.Intn(3)
+	}
 	op.N = g.genCutoff(m)
 	if op.Sub == "both" {
 		if g.timeMode != "wall" {
@@ -623,7 +634,11 @@ func (g *GenState) genOp(h *Hist) Op {
 	case "stat":
 		return Op{Kind: "stat"}
 	case "reopen":
-		return g.genReopen(h.cfg, lay, h.everNonDec)
+		op := g.genReopen(h.cfg, lay, h.everNonDec)
+		if r.Chance(0.12) && len(h.model.Live) > 0 && !h.opts.Readonly {
+			op.CrashDel = g.genDeleteSet(h.model, lay, pick(r, []string{"one", "first-of-seg", "last-of-seg", "random", "tail-of-head", "whole-seg", "last-message"}))
+		}
+		return op
 	case "backup":
 		return Op{Kind: "backup", Variant: pick(r, []string{"method", "package"})}
 	case "rosession":
